@@ -244,7 +244,7 @@ fn random_headers(rng: &mut Rng) -> Vec<HttpHeader> {
 
 pub fn lane_transforms(ctx: &mut Ctx) {
     let endpoints = wd::endpoints();
-    let max_cases = if ctx.tier == Tier::Quick { 100_000 } else { 10_000_000 };
+    let max_cases = if ctx.tier == Tier::Quick { 5_000_000 } else { 500_000_000 };
     for k in ctx.cases("transform", max_cases) {
         if !ctx.time_left() {
             break;
@@ -454,7 +454,7 @@ pub fn lane_decision(ctx: &mut Ctx) {
         wd::Canister::DogecoinMainnet,
         wd::Canister::DogecoinMainnetStaging,
     ];
-    let max_cases = if ctx.tier == Tier::Quick { 200_000 } else { 20_000_000 };
+    let max_cases = if ctx.tier == Tier::Quick { 10_000_000 } else { 1_000_000_000 };
     for k in ctx.cases("decision", max_cases) {
         if !ctx.time_left() {
             break;
